@@ -99,6 +99,18 @@ func zParseScore(s string) (float64, bool) {
 	return f, true
 }
 
+func zUniq(l []string) []string {
+	var o []string
+	seen := map[string]bool{}
+	for _, x := range l {
+		if !seen[x] {
+			seen[x] = true
+			o = append(o, x)
+		}
+	}
+	return o
+}
+
 func zIsKw(s string, kws ...string) bool {
 	for _, k := range kws {
 		if strings.EqualFold(s, k) {
@@ -960,7 +972,7 @@ func refZset(db map[string]AVal, a []string, now int64) *refExp {
 				e.postAlt = append(e.postAlt, post)
 			}
 		}
-		e.desc = "the count " + strings.Join(ds, " or ") + " (Redis bound syntax or plain strings)"
+		e.desc = "the count " + strings.Join(zUniq(ds), " or ") + " (Redis bound syntax or plain strings)"
 		if !redisOK {
 			e.reply = append(e.reply, rErr())
 			e.postAlt = append(e.postAlt, db)
@@ -1241,7 +1253,7 @@ func refZset(db map[string]AVal, a []string, now int64) *refExp {
 			ex.reply = append(ex.reply, zListing(l, q.withScores))
 			ds = append(ds, zFmt(l))
 		}
-		ex.desc = "the listing " + strings.Join(ds, " or ")
+		ex.desc = "the listing " + strings.Join(zUniq(ds), " or ")
 		if !exists {
 			ex.reply = append(ex.reply, rNil())
 		}
@@ -1283,7 +1295,7 @@ func refZset(db map[string]AVal, a []string, now int64) *refExp {
 			ex.reply = append(ex.reply, e.reply...)
 			ex.postAlt = append(ex.postAlt, e.post)
 		}
-		ex.desc = "the cardinality of the stored selection " + strings.Join(ds, " or ")
+		ex.desc = "the cardinality of the stored selection " + strings.Join(zUniq(ds), " or ")
 		if errAlso {
 			ex.reply = append(ex.reply, rErr())
 			ex.postAlt = append(ex.postAlt, db)
